@@ -336,9 +336,10 @@ pub fn adapt_case(r: &mut Rng, server_mode: bool, plan: u8, steps: usize) -> Str
                     s.node.actor.verif_get(crate::c20::request_of(0, Id::random()), ResponseSender::ClosestNodes(tx2));
                 }
                 let mut votes: Vec<SocketAddrV4> = Vec::new();
-                for round in 0..200 {
+                let mut quiet_rounds = 0;
+                for round in 0..400 {
                     let mut vs: Vec<SocketAddrV4> = Vec::new();
-                    s.step(&mut |s, inc| {
+                    let incoming = s.step(&mut |s, inc| {
                         let req = match as_request(&inc.msg) {
                             Some(q) => q,
                             None => return Reply::Silent,
@@ -357,12 +358,19 @@ pub fn adapt_case(r: &mut Rng, server_mode: bool, plan: u8, steps: usize) -> Str
                         }
                     });
                     votes.extend(vs);
+                    quiet_rounds = if incoming == 0 { quiet_rounds + 1 } else { 0 };
                     if s.snap().iterative_queries == 0 {
                         break;
                     }
-                    if round % 8 == 7 {
-                        s.advance(700);
+                    if round % 8 == 7 && quiet_rounds >= 3 {
+                        // only timeouts are pending: let the request timeout in force pass
+                        let t = (s.snap().inflight.3 / 1000) as u64;
+                        s.advance(t + 50);
                     }
+                }
+                if std::env::var("MLV_DEBUG").is_ok() {
+                    let sn = s.snap();
+                    eprintln!("votes step: double={} lookups left={} inflight={:?} mode={:?}", double, sn.iterative_queries, sn.inflight, sn.mode);
                 }
                 // let a self ping travel
                 for _ in 0..3 {
@@ -382,7 +390,9 @@ pub fn adapt_case(r: &mut Rng, server_mode: bool, plan: u8, steps: usize) -> Str
                 ev = format!("APing {}", addr_coq(&from));
             }
             3 => {
-                // the 15 minute refresh
+                // the 15 minute refresh; nothing may be in transit across the jump (a reply read 15 minutes
+                // after its request would be taken for a round trip of 15 minutes and inflate the request timeout)
+                s.settle();
                 s.advance(15 * 60 * 1000 + 1000);
                 s.settle();
                 ev = "ARefresh".into();
